@@ -8,7 +8,8 @@
    Totalisation: c11_res = ok | ub (null / freed / out-of-storage dereference in the C++) | fuel (loop bound hit).
    Where the repository code has a defect that a proposed fix (fixes/C11-*.patch) repairs, the model has both
    variants selected by a boolean `fx` (true = code after the fix, false = code as snapshotted). *)
-From Coq Require Import List Arith Bool PeanoNat.
+From Coq Require Import List Arith Bool PeanoNat ZArith.
+From DuneV Require Import Params_gen.
 Import ListNotations.
 
 Inductive c11_res (A : Type) : Type := C11_ok (a : A) | C11_ub | C11_fuel.
@@ -43,11 +44,16 @@ Section RUN.
       | C11_fuel => [C11_fuel]
       end
     end.
+  (* the state reached by a history (no observation) *)
+  Fixpoint c11_exec (w : W) (ops : list O) : c11_res W :=
+    match ops with [] => C11_ok w | o :: r => c11_bind (step w o) (fun w' => c11_exec w' r) end.
 End RUN.
 Arguments c11_run {W O Obs} step observe w ops.
+Arguments c11_exec {W O} step w ops.
 
 (* ======================================================================== ArrayList<T,N> *)
-Definition c11_cs (N : nat) : nat := match N with 0 => 1 | _ => N end.   (* chunkSize_ = (N > 0) ? N : 1 *)
+(* chunkSize_ = (N > 0) ? N : 1 ; the threshold 0 and the fallback 1 are re-read from arraylist.hh into Params_gen.v on every run *)
+Definition c11_cs (N : nat) : nat := if c11_param_al_chunk_threshold <? N then N else c11_param_al_min_chunk.
 
 Section AL.
   Variable T : Type.
@@ -141,6 +147,35 @@ Section AL.
   (* for(it = begin(); it != end(); ++it) *it   — same element function as operator[] *)
   Definition c11_al_contents (s : c11_al) : c11_res (list T) := c11_al_read s (al_start s) (al_size s).
 
+  (* ---- ArrayListIterator / ConstArrayListIterator: (list_, position_) with position_ : size_t *)
+  Definition c11_ali_increment (p : nat) : nat := S p.
+  Definition c11_ali_decrement (p : nat) : nat := p - 1.
+  Definition c11_ali_advance (p n : nat) : nat := p + n.
+  Definition c11_ali_equals (p q : nat) : bool := p =? q.
+  Definition c11_ali_distanceTo (p q : nat) : Z := (Z.of_nat q - Z.of_nat p)%Z.        (* other.position_ - position_ *)
+  Definition c11_ali_dereference (s : c11_al) (p : nat) : c11_res T := c11_al_elementAt s p.
+  (* elementAt(size_type i) = list_->elementAt(i + position_): operator[](difference_type n) converts n to size_t, so a
+     negative n wraps modulo 2^64 and the sum wraps back *)
+  Definition c11_ali_index (s : c11_al) (p : nat) (n : Z) : c11_res T :=
+    c11_al_elementAt s (Z.to_nat (((n mod 2 ^ 64) + Z.of_nat p) mod 2 ^ 64)%Z).
+  (* the secondary read paths the drivers use after every operation: begin()[i]; mid[i - m] for mid = begin() + size()/2;
+     reverse walk from end() with -- *)
+  Fixpoint c11_res_all {A : Type} (l : list (c11_res A)) : c11_res (list A) :=
+    match l with [] => C11_ok [] | x :: r => c11_bind x (fun a => c11_bind (c11_res_all r) (fun b => C11_ok (a :: b))) end.
+  Definition c11_al_read_begin (s : c11_al) : c11_res (list T) :=
+    c11_res_all (map (fun i => c11_ali_index s (c11_al_begin s) (Z.of_nat i)) (seq 0 (al_size s))).
+  Definition c11_al_read_mid (s : c11_al) : c11_res (list T) :=
+    let m := al_size s / 2 in
+    c11_res_all (map (fun i => c11_ali_index s (c11_ali_advance (c11_al_begin s) m) (Z.of_nat i - Z.of_nat m)%Z) (seq 0 (al_size s))).
+  Fixpoint c11_al_rev_walk (s : c11_al) (k p : nat) : c11_res (list T) :=
+    match k with
+    | 0 => C11_ok []
+    | S k' => let p' := c11_ali_decrement p in
+              c11_bind (c11_ali_dereference s p') (fun x => c11_bind (c11_al_rev_walk s k' p') (fun r => C11_ok (x :: r)))
+    end.
+  Definition c11_al_read_reverse (s : c11_al) : c11_res (list T) :=
+    c11_bind (c11_al_rev_walk s (al_size s) (c11_al_end s)) (fun r => C11_ok (rev r)).
+
   (* histories: one list plus one held iterator (absolute position) *)
   Inductive c11_al_op := AlPush (v : T) | AlErase (k : nat) | AlPurge | AlClear | AlSet (i : nat) (v : T) | AlHold (k : nat).
   Definition c11_al_world : Type := c11_al * option nat.
@@ -168,6 +203,12 @@ Section AL.
   Definition c11_al_observe (w : c11_al_world) : c11_res c11_al_obs :=
     c11_bind (c11_al_contents (fst w)) (fun l => c11_bind (c11_al_held w) (fun hv => C11_ok (al_size (fst w), l, hv))).
   Definition c11_al_run (fx : bool) := c11_run (c11_al_step fx) c11_al_observe.
+  (* the same history observed through the secondary read paths *)
+  Definition c11_al_observe_ra (w : c11_al_world) : c11_res (list T * list T * list T * Z * bool) :=
+    let s := fst w in
+    c11_bind (c11_al_read_begin s) (fun a => c11_bind (c11_al_read_mid s) (fun b => c11_bind (c11_al_read_reverse s) (fun c =>
+    C11_ok (a, b, c, c11_ali_distanceTo (c11_al_begin s) (c11_al_end s), c11_ali_equals (c11_ali_advance (c11_al_begin s) (al_size s)) (c11_al_end s))))).
+  Definition c11_al_run_ra (fx : bool) := c11_run (c11_al_step fx) c11_al_observe_ra.
   (* deep observable (private members): start_, size_, capacity_, which chunk pointers are null *)
   Definition c11_al_deep (s : c11_al) : nat * nat * nat * list bool :=
     (al_start s, al_size s, al_cap s, map (fun c => match c with None => true | Some _ => false end) (al_chunks s)).
@@ -468,6 +509,25 @@ Section SL.
     C11_ok ((sl_size (fst w), c11_sl_empty_q (fst w), a), (sl_size (snd w), c11_sl_empty_q (snd w), b), e, n))))).
   Definition c11_sl_run (fx : bool) := c11_run (c11_sl_step fx) c11_sl_observe.
 
+  (* ---- the same histories, additionally observing where a ModifyIterator stands after insert() / remove():
+     None = the op used no ModifyIterator, Some None = it compares equal to endModify(), Some (Some x) = *it *)
+  Definition c11_sl_probe (w : c11_sl_world) (o : c11_sl_op) : c11_res (option (option T)) :=
+    let deref (r : c11_res (c11_sl * c11_sl_cursor)) := c11_bind r (fun sc => c11_bind (c11_sl_mderef (fst sc) (snd sc)) (fun x => C11_ok (Some x))) in
+    match o with
+    | SlMIns i k v => let s := c11_sl_sel w i in
+                      deref (c11_bind (c11_sl_mbegin s) (fun c => c11_bind (c11_sl_madvance k s c) (fun c' => c11_sl_minsert s c' v)))
+    | SlMRem i k => let s := c11_sl_sel w i in
+                    deref (c11_bind (c11_sl_mbegin s) (fun c => c11_bind (c11_sl_madvance k s c) (fun c' => c11_sl_mremove s c')))
+    | SlMInsEnd i v => let s := c11_sl_sel w i in deref (c11_sl_minsert s (c11_sl_mend s) v)
+    | _ => C11_ok None
+    end.
+  Definition c11_sl_world2 : Type := c11_sl_world * option (option T).
+  Definition c11_sl_step2 (fx : bool) (w : c11_sl_world2) (o : c11_sl_op) : c11_res c11_sl_world2 :=
+    c11_bind (c11_sl_probe (fst w) o) (fun p => c11_bind (c11_sl_step fx (fst w) o) (fun w' => C11_ok (w', p))).
+  Definition c11_sl_observe2 (w : c11_sl_world2) : c11_res (c11_sl_obs * option (option T)) :=
+    c11_bind (c11_sl_observe (fst w)) (fun x => C11_ok (x, snd w)).
+  Definition c11_sl_run2 (fx : bool) := c11_run (c11_sl_step2 fx) c11_sl_observe2.
+
   (* deep observable: tail_ is the last node reachable from beforeHead_ (0 if empty) *)
   Fixpoint c11_sl_last_addr (fuel : nat) (s : c11_sl) (a : nat) : c11_res nat :=
     match fuel with
@@ -670,6 +730,16 @@ Section RV.
     c11_bind (c11_rv_eq a b) (fun e => c11_bind (c11_rv_lt a b) (fun l1 => c11_bind (c11_rv_lt b a) (fun l2 =>
     C11_ok (oa, ob, (e, l1, l2), r)))))).
   Definition c11_rv_run := c11_run c11_rv_step c11_rv_observe.
+  (* the derived comparison operators, as written in the header *)
+  Definition c11_rv_ne (a b : c11_rv) : c11_res bool := c11_bind (c11_rv_eq a b) (fun e => C11_ok (negb e)).      (* not (self == that) *)
+  Definition c11_rv_gt (a b : c11_rv) : c11_res bool := c11_rv_lt b a.                                             (* that < self *)
+  Definition c11_rv_le (a b : c11_rv) : c11_res bool := c11_bind (c11_rv_gt a b) (fun g => C11_ok (negb g)).      (* not (self > that) *)
+  Definition c11_rv_ge (a b : c11_rv) : c11_res bool := c11_bind (c11_rv_lt a b) (fun l => C11_ok (negb l)).      (* not (self < that) *)
+  Definition c11_rv_observe2 (w : c11_rv_world) : c11_res (c11_rv_obs * (bool * bool * bool * bool)) :=
+    let '(a, b, _) := w in
+    c11_bind (c11_rv_observe w) (fun x => c11_bind (c11_rv_ne a b) (fun n => c11_bind (c11_rv_gt a b) (fun g =>
+    c11_bind (c11_rv_le a b) (fun l => c11_bind (c11_rv_ge a b) (fun h => C11_ok (x, (n, g, l, h))))))).
+  Definition c11_rv_run2 := c11_run c11_rv_step c11_rv_observe2.
 End RV.
 
 (* ======================================================================== BitSetVector<bs> *)
@@ -731,7 +801,7 @@ Section BSV.
     | BvShr i k => c11_bind (c11_bv_getRepr s i) (fun r => c11_bv_assign s i (c11_bitset_shr r k))
     end.
 
-  (* observation: size(); per block: bits via test(j), count(), any/none/all; vector count(); countmasked(j) for j<bs *)
+  (* observation: size(); per block: bits via test(j); vector count(); countmasked(j) for j<bs; per block count()/any()/none()/all() *)
   Fixpoint c11_bv_blocks_loop (k i : nat) (s : c11_bv) : c11_res (list (list bool)) :=
     match k with 0 => C11_ok [] | S k' => c11_bind (c11_bv_getRepr s i) (fun b => c11_bind (c11_bv_blocks_loop k' (S i) s) (fun r => C11_ok (b :: r))) end.
   Definition c11_bv_blocks (s : c11_bv) : c11_res (list (list bool)) := c11_bv_blocks_loop (c11_bv_size s) 0 s.
@@ -739,10 +809,38 @@ Section BSV.
     match k with 0 => C11_ok 0 | S k' => c11_bind (c11_bv_getBit s i j) (fun b => c11_bind (c11_bv_countmasked_loop k' (S i) s j) (fun r => C11_ok ((if b then 1 else 0) + r))) end.
   Definition c11_bv_countmasked (s : c11_bv) (j : nat) : c11_res nat := c11_bv_countmasked_loop (c11_bv_size s) 0 s j.
   Definition c11_bv_count (s : c11_bv) : nat := c11_bitset_count s.
-  Definition c11_bv_obs : Type := list (list bool) * nat * list nat.
+  (* the const std::bitset interface of the block proxy (BitSetVectorConstReference):
+     count(): n = 0; for i < block_size: n += getBit(i);   any() = count();  none() = !any();
+     all(): for i < block_size: if (not test(i)) return false; return true *)
+  Fixpoint c11_bv_rcount_loop (k j : nat) (s : c11_bv) (i : nat) : c11_res nat :=
+    match k with 0 => C11_ok 0 | S k' => c11_bind (c11_bv_getBit s i j) (fun b => c11_bind (c11_bv_rcount_loop k' (S j) s i) (fun r => C11_ok ((if b then 1 else 0) + r))) end.
+  Definition c11_bv_rcount (s : c11_bv) (i : nat) : c11_res nat := c11_bv_rcount_loop bs 0 s i.
+  Definition c11_bv_rany (s : c11_bv) (i : nat) : c11_res bool := c11_bind (c11_bv_rcount s i) (fun c => C11_ok (negb (c =? 0))).
+  Definition c11_bv_rnone (s : c11_bv) (i : nat) : c11_res bool := c11_bind (c11_bv_rany s i) (fun a => C11_ok (negb a)).
+  Fixpoint c11_bv_rall_loop (k j : nat) (s : c11_bv) (i : nat) : c11_res bool :=
+    match k with 0 => C11_ok true | S k' => c11_bind (c11_bv_getBit s i j) (fun b => if b then c11_bv_rall_loop k' (S j) s i else C11_ok false) end.
+  Definition c11_bv_rall (s : c11_bv) (i : nat) : c11_res bool := c11_bv_rall_loop bs 0 s i.
+  (* equals(other reference): eq = true; for i < block_size: eq &= (getBit(i) == other[i]);   operator~: bitset b = *this; b.flip() *)
+  Fixpoint c11_bv_requals_loop (k j : nat) (s : c11_bv) (i o : nat) : c11_res bool :=
+    match k with
+    | 0 => C11_ok true
+    | S k' => c11_bind (c11_bv_getBit s i j) (fun a => c11_bind (c11_bv_getBit s o j) (fun b =>
+              c11_bind (c11_bv_requals_loop k' (S j) s i o) (fun r => C11_ok (Bool.eqb a b && r))))
+    end.
+  Definition c11_bv_requals (s : c11_bv) (i o : nat) : c11_res bool := c11_bv_requals_loop bs 0 s i o.
+  Definition c11_bv_rnot (s : c11_bv) (i : nat) : c11_res (list bool) := c11_bind (c11_bv_getRepr s i) (fun b => C11_ok (map negb b)).
+  Definition c11_bv_qobs : Type := nat * bool * bool * bool * bool * list bool.   (* count any none all (== next block) ~block *)
+  Definition c11_bv_rqueries (s : c11_bv) (i : nat) : c11_res c11_bv_qobs :=
+    c11_bind (c11_bv_rcount s i) (fun c => c11_bind (c11_bv_rany s i) (fun a => c11_bind (c11_bv_rnone s i) (fun n => c11_bind (c11_bv_rall s i) (fun l =>
+    c11_bind (c11_bv_requals s i (S i mod c11_bv_size s)) (fun e => c11_bind (c11_bv_rnot s i) (fun nb =>
+    C11_ok (c, a, n, l, e, nb))))))).
+  Fixpoint c11_bv_rqueries_loop (k i : nat) (s : c11_bv) : c11_res (list c11_bv_qobs) :=
+    match k with 0 => C11_ok [] | S k' => c11_bind (c11_bv_rqueries s i) (fun q => c11_bind (c11_bv_rqueries_loop k' (S i) s) (fun r => C11_ok (q :: r))) end.
+  Definition c11_bv_obs : Type := list (list bool) * nat * list nat * list c11_bv_qobs.
   Fixpoint c11_bv_cms (s : c11_bv) (js : list nat) : c11_res (list nat) :=
     match js with [] => C11_ok [] | j :: r => c11_bind (c11_bv_countmasked s j) (fun x => c11_bind (c11_bv_cms s r) (fun y => C11_ok (x :: y))) end.
   Definition c11_bv_observe (s : c11_bv) : c11_res c11_bv_obs :=
-    c11_bind (c11_bv_blocks s) (fun b => c11_bind (c11_bv_cms s (seq 0 bs)) (fun c => C11_ok (b, c11_bv_count s, c))).
+    c11_bind (c11_bv_blocks s) (fun b => c11_bind (c11_bv_cms s (seq 0 bs)) (fun c =>
+    c11_bind (c11_bv_rqueries_loop (c11_bv_size s) 0 s) (fun q => C11_ok (b, c11_bv_count s, c, q)))).
   Definition c11_bv_run := c11_run c11_bv_step c11_bv_observe.
 End BSV.
